@@ -158,7 +158,7 @@ def sid_values(c, n):
 
 # structurally valid DER with shapes the decoder does not expect: (name, builder knobs)
 SHAPES = ["no_recipient", "two_recipients", "three_recipients", "kekri_tag_1", "kekri_tag_3", "no_kek_other", "empty_eci", "eci_no_params", "empty_envelope", "content_absent",
-          "empty_content_wrapper", "kekid_empty", "recipient_not_constructed", "extra_field_after_eci", "version_symbolic"]
+          "empty_content_wrapper", "kekid_empty", "recipient_not_constructed", "extra_field_after_eci", "version_symbolic", "deep_content", "deep_outer", "deep_recipient"]
 
 
 def _shaped_blob(c, shape):
@@ -168,12 +168,23 @@ def _shaped_blob(c, shape):
     kid = refs.ref_key_identifier(1, 0, 361, 31, 31, e2e.RK.bytes_le, c.bytes("key_info", 32), "domain.test", "domain.test")
     sid = e2e.SIDS[1]
     enc_cek, content, nonce = c.bytes("enc_cek", 40), c.bytes("content", 21), c.bytes("nonce", 12)
+    def nest(inner, tag, depth=3000):
+        """`depth` constructed TLVs around inner (about 4 octets each): far deeper than any recursion limit"""
+        n, hdrs = len(inner), []
+        for _ in range(depth):
+            h = bytes([tag]) + bytes(refs.der_len(n))
+            hdrs.append(h)
+            n += len(h)
+        return cat(b"".join(reversed(hdrs)), inner)
+
     ver = lambda name, dflt: (refs.cat(bytes([2, 1]), c.bytes(name, 1)) if shape == "version_symbolic" else bytes([2, 1, dflt]))
     other = der_seq(der_oid("1.3.6.1.4.1.311.74.1"), refs.ref_protection_descriptor(sid))
     kekid = der_seq() if shape == "kekid_empty" else (der_seq(der_octets(kid)) if shape == "no_kek_other" else der_seq(der_octets(kid), other))
     body = cat(ver("v_kekri", 4), kekid, der_seq(der_oid("2.16.840.1.101.3.4.1.45")), der_octets(enc_cek))
     tagn = {"kekri_tag_1": 1, "kekri_tag_3": 3}.get(shape, 2)
     kekri = der_ctx(tagn, shape != "recipient_not_constructed", body)
+    if shape == "deep_recipient":
+        kekri = nest(kekri, 0xA2)
     recips = {"no_recipient": [], "two_recipients": [kekri, kekri], "three_recipients": [kekri, kekri, kekri]}.get(shape, [kekri])
     params = refs.ref_gcm_parameters(nonce)
     if shape == "empty_eci":
@@ -182,19 +193,24 @@ def _shaped_blob(c, shape):
         eci = der_seq(der_oid("1.2.840.113549.1.7.1"), der_seq(der_oid("2.16.840.1.101.3.4.1.46")), der_ctx(0, False, content))
     elif shape == "content_absent":
         eci = der_seq(der_oid("1.2.840.113549.1.7.1"), der_seq(der_oid("2.16.840.1.101.3.4.1.46"), params))
+    elif shape == "deep_content":
+        # BER constructed OCTET STRING segments (X.690 8.7.3) nested 3000 deep inside a constructed [0]
+        eci = der_seq(der_oid("1.2.840.113549.1.7.1"), der_seq(der_oid("2.16.840.1.101.3.4.1.46"), params), der_ctx(0, True, nest(der_octets(content), 0x24)))
     else:
         eci = der_seq(der_oid("1.2.840.113549.1.7.1"), der_seq(der_oid("2.16.840.1.101.3.4.1.46"), params), der_ctx(0, False, content))
     parts = [ver("v_env", 2), der_set(*recips), eci]
     if shape == "extra_field_after_eci":
         parts.append(der_ctx(1, True, der_seq(der_oid("1.2.3"), der_set(der_octets(b"x")))))
     env = der_seq() if shape == "empty_envelope" else der_seq(*parts)
+    if shape == "deep_outer":
+        env = nest(env, 0x30)
     wrapper = der_ctx(0, True, b"" if shape == "empty_content_wrapper" else env)
     return cat(der_seq(der_oid("1.2.840.113549.1.7.3"), wrapper))
 
 
 @harness(P, per_job=True, params=[dict(shape=s) for s in SHAPES], raises=ALLOWED, budget_violation=True, max_steps=400000,
-         bounds="15 listed re-encodings of the CMS structure that are valid DER but not the expected shape (0 / 2 / 3 recipients, other recipient tags, missing optional or "
-         "mandatory members, empty SEQUENCEs, an extra member, symbolic version octets), built with the independent DER builder around symbolic leaf values; DPAPINGBlob.unpack and "
+         bounds="18 listed re-encodings of the CMS structure that are valid DER but not the expected shape (0 / 2 / 3 recipients, other recipient tags, missing optional or "
+         "mandatory members, empty SEQUENCEs, an extra member, symbolic version octets, constructed values nested 3000 deep at three places), built with the independent DER builder around symbolic leaf values; DPAPINGBlob.unpack and "
          "the offline unprotect must end in a return, a cache miss or a deliberate error type", outside="other shapes", must_reach=("shape decoded or refused deliberately",))
 def shape_variants(c, shape):
     import dpapi_ng
